@@ -333,7 +333,7 @@ class Scheduler(object):
             shape = (self.prog["tasks"].get(a["task"]) or {}).get("shape", "token")
             status, result = self.outcome(a["task"], x.visit, x.attempt, a["item"], shape)
             if w.cancel_req and self.K.u("cancel_outcome", aid) < self.f["act_canceled"]:
-                status, result = "canceled", None
+                status = "canceled"    # keeps the payload shape of the task
                 self.stats["fault_act_canceled"] = self.stats.get("fault_act_canceled", 0) + 1
             if status != "succeeded" and status != "canceled":
                 self.stats["fault_act_" + status] = self.stats.get("fault_act_" + status, 0) + 1
